@@ -19,8 +19,8 @@ pub fn gen(tier: &str, seed: u64) -> Gen {
             continue;
         }
         // the element as command name, and as single argument of a plain command name
-        cases.push(tl(vec![tstrs(&[s.as_str()]), ti((n % 4) as i64)]));
-        cases.push(tl(vec![tstrs(&["cmd", s.as_str()]), ti(((n + 1) % 4) as i64)]));
+        cases.push(tl(vec![tstrs(&[s.as_str()]), ti((n % 5) as i64)]));
+        cases.push(tl(vec![tstrs(&["cmd", s.as_str()]), ti(((n + 1) % 5) as i64)]));
         n += 2;
     }
     fams.push((format!("every non-empty string of length<={} over 14 symbols as command name and as argument", if thorough { 4 } else { 2 }), n, true));
@@ -32,7 +32,7 @@ pub fn gen(tier: &str, seed: u64) -> Gen {
                 continue;
             }
             if thorough || rng.chance(1, 1) {
-                cases.push(tl(vec![tstrs(&[a.as_str(), b.as_str()]), ti(rng.below(4) as i64)]));
+                cases.push(tl(vec![tstrs(&[a.as_str(), b.as_str()]), ti(rng.below(5) as i64)]));
                 m += 1;
             }
         }
@@ -51,7 +51,7 @@ pub fn gen(tier: &str, seed: u64) -> Gen {
         if v[0].is_empty() {
             v[0] = "#".to_string();
         }
-        cases.push(tl(vec![tstrs(&v), ti(rng.below(4) as i64)]));
+        cases.push(tl(vec![tstrs(&v), ti(rng.below(5) as i64)]));
     }
     fams.push(("random argument vectors (1-4 elements, Unicode, {*}, #)".to_string(), nrand, false));
     (cases, fams)
@@ -82,6 +82,13 @@ pub fn run(case: &Term) -> Term {
             // re-assembled with `list` from parts held in variables
             for (i, e) in elems.iter().enumerate() {
                 let _ = interp.set_scalar(&format!("p{}", i), Value::from(e.as_str()));
+            }
+            // mode 4: every part has been looked at as a list, a number and a dictionary before
+            // the command is assembled (whatever the parts have cached, they are quoted by their text)
+            if mode == 4 {
+                for i in 0..elems.len() {
+                    let _ = interp.eval(&format!("catch {{llength $p{}}}; catch {{incr zq9 $p{}}}; catch {{dict size $p{}}}; catch {{lindex $p{} 0}}", i, i, i, i));
+                }
             }
             let parts: Vec<String> = (0..elems.len()).map(|i| format!("$p{}", i)).collect();
             interp.eval(&format!("if 1 [list {}]", parts.join(" ")))
